@@ -8,6 +8,7 @@ import ast
 
 from .. import battery as B
 from .. import edits as E
+from .. import oracle as O
 from .. import explore as X
 from ..programs import PROGRAMS
 
@@ -43,6 +44,7 @@ def shards(tier):
         for r in range(np):
             out.append({'prog': i, 'part': [r, np], 'mode': 'main'})
         out.append({'prog': i, 'mode': 'groups'})
+        out.append({'prog': i, 'mode': 'single'})
     return out
 
 
@@ -93,6 +95,32 @@ def run_shard(desc, tier, res):
                 if live_vs_parse(root, 'Module'):
                     continue  # the edit itself left source != tree (unpar()/par(force) misuse, or a C01 defect): C01's business
                 if check(fst, root, src0, [op], cid, g, res):
+                    res.nontriv(cid)
+        return
+    if desc['mode'] == 'single':  # deviation: exactly ONE statement-like node (or the root) is queried before the edit
+        from ..fstnav import live_vs_parse, node_at
+        tree0 = ast.parse(src0)
+        targets = [()] + [p for p, n in O.iter_nodes(tree0) if isinstance(n, (ast.stmt, ast.excepthandler, ast.match_case))]
+        ops = list(E.enumerate_ops(src0, nk=1, nks=1, forms=('src',), opts=({},), kinds=('line_comment', 'docstr', 'remove', 'insert'),
+                                   lc_texts=('a much longer comment', None)))
+        for tp in targets:
+            for op in ops:
+                root = fst.FST(src0, 'exec')
+                q = node_at(root, tp)
+                try:
+                    q.loc, q.bloc, q.src, q.own_src()
+                except Exception:  # noqa: BLE001
+                    pass
+                cid = f"C02/p{desc['prog']}/pre=only:{O.path_str(tp) or '<root>'}/{E.op_id(op)}"
+                res.evals += 1
+                res.transitions += 1
+                try:
+                    E.apply(fst, root, op)
+                except Exception:  # noqa: BLE001
+                    continue
+                if live_vs_parse(root, 'Module'):
+                    continue
+                if check(fst, root, src0, [op], cid, 'only:' + O.path_str(tp), res):
                     res.nontriv(cid)
         return
     variants = VARIANTS_Q if tier == 'quick' else ['none', 'full', 'nav']
